@@ -37,6 +37,9 @@ class C08(Prop):
                 cfg = c['cfg']
                 c['market'] = csv_market(rng, c['assets'], cfg['start'] // DAY, cfg['end'] // DAY, c['exact'])
                 c['stream'] += ':csv' + (':adjusted' if c['market']['adjust'] else '')
+                if c['market']['adjust'] and c['cfg'].get('lookbacks') is None and rng.random() < 0.6:
+                    c['default_handler'] = True         # data_handler=None: built by the session from QSTRADER_CSV_DATA_DIR
+                    c['stream'] += ':default-handler'
         return out
 
     @staticmethod
